@@ -12,6 +12,8 @@ import (
 	sdkmath "cosmossdk.io/math"
 	sdk "github.com/cosmos/cosmos-sdk/types"
 	ammtypes "github.com/elys-network/elys/x/amm/types"
+	llpkeeper "github.com/elys-network/elys/x/leveragelp/keeper"
+	llptypes "github.com/elys-network/elys/x/leveragelp/types"
 )
 
 // Engine K for C05: every sequence of joins / exits (all forms) / interleaved swaps up to a depth
@@ -25,20 +27,24 @@ type c05PoolSpec struct {
 	A2, AU int64 // reserves of D2 and uusdc
 	W2, WU int64
 	Skew   bool // oracle pool pushed off its target weights before the exploration
+	Lev    bool // enabled for leveraged LP / perpetuals through the gov handler: an ACCOUNTED pool exists and prices joins/exits
 }
 
 var c05Specs = []c05PoolSpec{
-	{"cpmm_1to1_1e3", false, "uatom", 1000, 5000, 1, 1, false},
-	{"cpmm_1to1_1e6", false, "uatom", 1000000, 5000000, 1, 1, false},
-	{"cpmm_1to1_1e12", false, "uatom", 1000000000000, 5000000000000, 1, 1, false},
-	{"cpmm_80to20_1e3", false, "uatom", 4000, 5000, 80, 20, false},
-	{"cpmm_80to20_1e6", false, "uatom", 4000000, 5000000, 80, 20, false},
-	{"cpmm_80to20_1e12", false, "uatom", 4000000000000, 5000000000000, 80, 20, false},
-	{"oracle_5050_1e3", true, "uatom", 1000, 5000, 1, 1, false},
-	{"oracle_5050_1e6", true, "uatom", 1000000, 5000000, 1, 1, false},
-	{"oracle_5050_1e12", true, "uatom", 1000000000000, 5000000000000, 1, 1, false},
-	{"oracle_offtarget_1e6", true, "uatom", 1000000, 5000000, 1, 1, true},
-	{"oracle_offtarget_1e12", true, "uatom", 1000000000000, 5000000000000, 1, 1, true},
+	{"cpmm_1to1_1e3", false, "uatom", 1000, 5000, 1, 1, false, false},
+	{"cpmm_1to1_1e6", false, "uatom", 1000000, 5000000, 1, 1, false, false},
+	{"cpmm_1to1_1e12", false, "uatom", 1000000000000, 5000000000000, 1, 1, false, false},
+	{"cpmm_80to20_1e3", false, "uatom", 4000, 5000, 80, 20, false, false},
+	{"cpmm_80to20_1e6", false, "uatom", 4000000, 5000000, 80, 20, false, false},
+	{"cpmm_80to20_1e12", false, "uatom", 4000000000000, 5000000000000, 80, 20, false, false},
+	{"oracle_5050_1e3", true, "uatom", 1000, 5000, 1, 1, false, false},
+	{"oracle_5050_1e6", true, "uatom", 1000000, 5000000, 1, 1, false, false},
+	{"oracle_5050_1e12", true, "uatom", 1000000000000, 5000000000000, 1, 1, false, false},
+	{"oracle_offtarget_1e6", true, "uatom", 1000000, 5000000, 1, 1, true, false},
+	{"oracle_offtarget_1e12", true, "uatom", 1000000000000, 5000000000000, 1, 1, true, false},
+	{"oracle_lev_5050_1e6", true, "uatom", 1000000, 5000000, 1, 1, false, true},
+	{"oracle_lev_5050_1e12", true, "uatom", 1000000000000, 5000000000000, 1, 1, false, true},
+	{"oracle_lev_offtarget_1e12", true, "uatom", 1000000000000, 5000000000000, 1, 1, true, true},
 }
 
 type c05Unit struct {
@@ -81,6 +87,8 @@ func c05Ops(spec c05PoolSpec) []c05Op {
 		}
 	}
 	ops = append(ops, c05Op{Name: "swap_small_by_other", Kind: "swap", Arg: "small"}, c05Op{Name: "swap_large_by_other", Kind: "swap", Arg: "large"})
+	// the opposite direction (input denom sorts AFTER the output denom)
+	ops = append(ops, c05Op{Name: "swap_small_rev_by_other", Kind: "swap", Arg: "small", Idx: 1}, c05Op{Name: "swap_large_rev_by_other", Kind: "swap", Arg: "large", Idx: 1})
 	ops = append(ops, c05Op{Name: "founder_exits_all_pool_shares", Kind: "other_exit_all"})
 	return ops
 }
@@ -99,6 +107,12 @@ func c05Setup() *c05Env {
 		ps := w.App.AmmKeeper.GetAllPool(w.RCtx())
 		id := ps[len(ps)-1].PoolId
 		e.pools = append(e.pools, id)
+		if s.Lev {
+			w.MustGov("c05 leveragelp AddPool", func(ctx sdk.Context) error {
+				_, err := llpkeeper.NewMsgServerImpl(*w.App.LeveragelpKeeper).AddPool(ctx, &llptypes.MsgAddPool{Authority: w.Gov, Pool: llptypes.AddPool{AmmPoolId: id, LeverageMax: sdkmath.LegacyNewDec(10)}})
+				return err
+			})
+		}
 		if s.Skew {
 			// push the pool far off its target weights with one real swap (30 % of the atom reserve in)
 			t2 := w.A("t2")
@@ -323,12 +337,13 @@ func (r *c05Run) apply(ctx sdk.Context, s *c05State, op c05Op, path []string) {
 		}
 	case "swap":
 		p, _ := w.App.AmmKeeper.GetPool(ctx, r.poolId)
-		a := pre.res[0].QuoRaw(1000).AddRaw(1)
+		in, out := op.Idx, 1-op.Idx
+		a := pre.res[in].QuoRaw(1000).AddRaw(1)
 		if op.Arg == "large" {
-			a = pre.res[0].QuoRaw(5).AddRaw(1)
+			a = pre.res[in].QuoRaw(5).AddRaw(1)
 		}
 		c, write := ctx.CacheContext()
-		if _, e := w.App.AmmKeeper.InternalSwapExactAmountIn(c, r.other, r.other, p, sdk.NewCoin(pre.denoms[0], a), pre.denoms[1], sdkmath.OneInt(), p.PoolParams.SwapFee); e == nil {
+		if _, e := w.App.AmmKeeper.InternalSwapExactAmountIn(c, r.other, r.other, p, sdk.NewCoin(pre.denoms[in], a), pre.denoms[out], sdkmath.OneInt(), p.PoolParams.SwapFee); e == nil {
 			write()
 		}
 		s.noSwap, s.onlyAllAsset = false, false
